@@ -83,7 +83,25 @@ func (st *State) call(f *Frame, ins ssa.Instruction, cc *ssa.CallCommon, opts *c
 			st.panicOb2(f, ins, "nilfunc:"+ord, not(eq(fnv.Term, nilRef)), "call of nil function value")
 		}
 		st.havocAll("call through function value " + cc.Value.Name() + " in " + f.fn.Name())
-		setResult(st.freshResult("dyncall", resT))
+		st.res.Assumed["calls through function values (here in "+f.fn.Name()+") are assumed not to panic"] = true
+		res := st.freshResult("dyncall", resT)
+		if fnv.Term != "" {
+			st.eng.pre.Fun("fn_ret_nonnil", "(Ref) Bool")
+			nn := app("fn_ret_nonnil", fnv.Term)
+			rs := res.Tuple
+			if rs == nil && res.Term != "" {
+				rs = []Value{res}
+			}
+			for _, r := range rs {
+				switch r.S {
+				case SRef:
+					st.assume(imp(nn, not(eq(r.Term, nilRef))))
+				case SIface:
+					st.assume(imp(nn, not(eq(app("i_tag", r.Term), "0"))))
+				}
+			}
+		}
+		setResult(res)
 		return nil
 	}
 	callee := fnv.Fn
@@ -367,6 +385,10 @@ func (st *State) applyContract(f *Frame, ins ssa.Instruction, c *Contract, calle
 	for _, en := range c.Ensures {
 		st.assume(st.evalBool(en.Expr, &env2, en))
 	}
+	for _, en := range c.Assumes {
+		st.assume(st.evalBool(en.Expr, &env2, en))
+		st.res.Assumed["UNVERIFIED clause of "+c.Pkg+"."+c.Name+": "+en.Src] = true
+	}
 	return res
 }
 
@@ -395,7 +417,18 @@ func (st *State) findClosureValue(f *Frame, ins ssa.Instruction) *Value {
 
 func (st *State) covered(ms *modSet, addr string) string {
 	var alts []string
-	for _, en := range ms.entries {
+	for _, en0 := range ms.entries {
+		en := en0
+		if en.cond == "false" {
+			continue
+		}
+		if en.cond != "" {
+			// conditional entry: contributes cond && (its coverage)
+			sub := &modSet{entries: []modEntry{{kind: en.kind, ref: en.ref, name: en.name, T: en.T}}, allocTop: ms.allocTop}
+			c := st.covered(sub, addr)
+			alts = append(alts, and(en.cond, c))
+			continue
+		}
 		switch en.kind {
 		case "all":
 			return "true"
@@ -449,9 +482,16 @@ func (st *State) frameCheckEntry(ins ssa.Instruction, en modEntry, name string) 
 	for _, ms := range st.modsets {
 		var alts []string
 		for _, e2 := range ms.entries {
+			if e2.cond == "false" {
+				continue
+			}
+			c2 := e2.cond
+			if c2 == "" {
+				c2 = "true"
+			}
 			switch {
 			case e2.kind == "all":
-				alts = append(alts, "true")
+				alts = append(alts, c2)
 			case en.kind == "cell":
 			case e2.kind == en.kind && en.kind == "ghost":
 				if e2.name == en.name {
@@ -473,6 +513,9 @@ func (st *State) frameCheckEntry(ins ssa.Instruction, en modEntry, name string) 
 			alts = append(alts, app(">=", rootID(en.ref), ms.allocTop))
 			g = or(alts...)
 		}
+		if en.cond != "" {
+			g = imp(en.cond, g)
+		}
 		n := name
 		if ms.what != "function" {
 			n += ":" + ms.what
@@ -484,6 +527,12 @@ func (st *State) frameCheckEntry(ins ssa.Instruction, en modEntry, name string) 
 func (st *State) havocModset(ms *modSet) {
 	te := st.eng.te
 	for _, en := range ms.entries {
+		if en.cond == "false" {
+			continue
+		}
+		if en.cond != "" && st.known[en.cond] == false && st.known[not(en.cond)] {
+			continue
+		}
 		switch en.kind {
 		case "all":
 			st.havocAll("frame: everything")
